@@ -354,6 +354,12 @@ func (s *authzServer) validateIssuer(vContext *validationContext) error {
 	metadata := &resolver.ResolveMetadata{
 		ResolveTime: &validationTime,
 	}
+	// the signing key must be a key of the issuer
+	if keyID, err := did.ParseDIDURL(vContext.kid); err != nil {
+		return fmt.Errorf(errInvalidIssuerKeyFmt, err)
+	} else if !keyID.DID.Equals(*vContext.requester) {
+		return fmt.Errorf(errInvalidIssuerKeyFmt, errors.New("signing key is not a key of the issuer"))
+	}
 	if _, err := s.keyResolver.ResolveKeyByID(vContext.kid, metadata, resolver.NutsSigningKeyType); err != nil {
 		return fmt.Errorf(errInvalidIssuerKeyFmt, err)
 	}
